@@ -101,8 +101,9 @@ def valid(p: DPoint):
 def all_subclasses(c):
     out = []
     for s in c.__subclasses__():
-        out.append(s)
-        out.extend(all_subclasses(s))
+        for x in [s] + all_subclasses(s):
+            if x not in out:  # a diamond reaches its bottom class twice
+                out.append(x)
     return out
 
 
@@ -548,6 +549,102 @@ def lattice(tier):
     return out
 
 
+PAIR_SRC = '''
+from mashumaro.types import Discriminator
+@dataclass
+class Cat(DataClassDictMixin):
+    kind: str = "a"
+@dataclass
+class Dog(DataClassDictMixin):
+    kind: str = "b"
+@dataclass
+class Car(DataClassDictMixin):
+    kind: str = "a"
+@dataclass
+class Bus(DataClassDictMixin):
+    kind: str = "b"
+@dataclass
+class Van(DataClassDictMixin):
+    kind: str = "c"
+DD = Discriminator(field="kind", include_supertypes=True)
+DD2 = Discriminator(field="kind", include_supertypes=True)
+@dataclass
+class Trip(DataClassDictMixin):
+    pair: Tuple[Annotated[Union[Cat, Dog], DD], Annotated[Union[Car, Bus, Van], DD2]]
+    pets: List[Annotated[Union[Cat, Dog], DD]] = field(default_factory=list)
+    rides: Dict[str, Annotated[Union[Car, Bus, Van], DD]] = field(default_factory=dict)
+from mashumaro.codecs.basic import BasicDecoder
+DEC = BasicDecoder(Tuple[Annotated[Union[Cat, Dog], DD], Annotated[Union[Car, Bus, Van], DD]])
+'''
+
+
+def registry_owners(recs):
+    """registry expression -> {(function name, variants iterated)} over all generated discriminator functions"""
+    owners = {}
+    for r in recs:
+        try:
+            m = ast.parse(r.text)
+        except SyntaxError:
+            continue
+        for fn in [n for n in ast.walk(m) if isinstance(n, ast.FunctionDef)]:
+            regs = [ast.unparse(n.value) for n in ast.walk(fn) if isinstance(n, ast.Assign) and len(n.targets) == 1
+                    and isinstance(n.targets[0], ast.Name) and n.targets[0].id == "variants_map"]
+            if not regs:
+                continue
+            loops = [ast.unparse(n.iter) for n in ast.walk(fn) if isinstance(n, ast.For) and isinstance(n.target, ast.Name) and n.target.id == "variant"]
+            for reg in set(regs):
+                owners.setdefault(reg, set()).add((fn.name, tuple(sorted(loops))))
+    return owners
+
+
+def pair_task(payload):
+    """two discriminated unions with equal Discriminator settings inside one field / one codec: each
+    generated function must own its registry (the representation invariant of one function is about
+    its own variant set; a shared registry lets the other function's writes break it)"""
+    pid = payload[0]
+    src = g4.PRELUDE + PAIR_SRC
+    obs = []
+    try:
+        mod, recs = build.build_module(src)
+    except Exception as e:
+        return {"obligations": [dict(id=f"{pid}.G6[pair]/builds", status="refuted", detail=f"{type(e).__name__}: {e}", witness={"confirmed": True, "source": src, "why": str(e)})]}
+    try:
+        allrecs = [r for r in harvest.RECORDER.records if recs and r.seq >= recs[0].seq]
+        owners = registry_owners(allrecs)
+        shared = {reg: o for reg, o in owners.items() if len({v for (_, v) in o}) > 1}
+        w = None
+        # replay (also the bounded complement of the ownership obligation)
+        probs = []
+        try:
+            t = mod.Trip.from_dict({"pair": [{"kind": "b"}, {"kind": "b"}], "pets": [{"kind": "a"}], "rides": {"r": {"kind": "a"}}})
+            want = (mod.Dog, mod.Bus, mod.Cat, mod.Car)
+            got = (type(t.pair[0]), type(t.pair[1]), type(t.pets[0]), type(t.rides["r"]))
+            if got != want:
+                probs.append(f"Trip.from_dict: classes {[c.__name__ for c in got]}, expected {[c.__name__ for c in want]}")
+            d = mod.DEC.decode([{"kind": "a"}, {"kind": "c"}])
+            if (type(d[0]), type(d[1])) != (mod.Cat, mod.Van):
+                probs.append(f"decoder: classes {[type(x).__name__ for x in d]}, expected ['Cat', 'Van']")
+            try:
+                mod.Trip.from_dict({"pair": [{"kind": "c"}, {"kind": "c"}]})
+                probs.append("tag 'c' accepted at a position whose union has no such variant")
+            except Exception:
+                pass
+        except Exception as e:  # noqa
+            probs.append(f"{type(e).__name__}: {str(e)[:200]}")
+        if probs:
+            w = {"confirmed": True, "source": src, "input": "{'pair': [{'kind': 'b'}, {'kind': 'b'}], ...}", "why": "; ".join(probs)}
+        obs.append(dict(id=f"{pid}.G6[pair]/registry_owned", status="proved" if not shared else "refuted", unit=f"{len(owners)} registries of the generated discriminator functions",
+                        detail="" if not shared else "one variants registry is written by functions of different unions: " + "; ".join(f"{reg} <- {sorted(n for n, _ in o)}" for reg, o in shared.items())[:600],
+                        witness=w if shared else None))
+        if len(owners) < 4:
+            obs.append(dict(id=f"{pid}.G6[pair]/registry_owned/cover", status="refuted" if not shared else "proved", detail=f"only {len(owners)} registries found for 5 discriminated positions (vacuity guard)"))
+        obs.append(dict(id=f"{pid}.H[pair]/bounded_sample", status="proved" if not probs else "refuted", unit="Trip.from_dict / DEC.decode on one history (bounded)", bounded=True,
+                        detail="; ".join(probs), witness=w))
+        return {"obligations": obs}
+    finally:
+        build.drop_module(mod)
+
+
 def history_task(payload):
     pid, p = payload
     w = history_battery(p)
@@ -561,6 +658,11 @@ def check(pid, tier):
     res = runner.run_pool(c12_task, [(pid, p) for p in pts], chunks=1)
     obs, crashes = [], []
     for r in res:
+        if "crash" in r:
+            crashes.append(r["crash"] + " @ " + r["payload"] + "\n" + r["trace"][-700:])
+        else:
+            obs.extend(r["obligations"])
+    for r in runner.run_pool(pair_task, [(pid,)], chunks=1):
         if "crash" in r:
             crashes.append(r["crash"] + " @ " + r["payload"] + "\n" + r["trace"][-700:])
         else:
